@@ -7,7 +7,7 @@ from sa.callgraph import bind_args
 from .common import analysis, names_in, resolve_local
 
 PROP = "C12"
-TECHNIQUE = "def-use provenance per public entry point (schema reaching a worker comes from parse_schema with the very name table handed to the worker); CFG dominance of the early-return copy of the embedded name table; data-dependence of the header schema on the name table filled by the parse"
+TECHNIQUE = "def-use provenance per public entry point (schema reaching a worker comes from parse_schema with the very, shared, name table handed to the worker); CFG dominance of the early-return copy of the embedded name table; data-dependence of the header schema on the name table filled by the parse; who-may-drop discipline for the reader schema"
 LEVEL_TEXT = (
     "Static analysis: for each public function with a schema parameter the value reaching write_data / read_data / _validate / gen_data / "
     "the canonical writer / the anonymizer must be the result of parse_schema on that parameter, parsed against the very dictionary the "
